@@ -174,8 +174,17 @@ def run_property(prop, tier, rule_fn, floor, meta):
                 rule_fn(rep, fl)
             except AnchorMissing as e:
                 rep.missing("anchor", fl, str(e))
+        if meta.get("once"):
+            meta["once"](rep)
         if tier == "thorough" and meta.get("once_thorough"):
             meta["once_thorough"](rep)
+        if tier == "thorough" and not os.environ.get("VERIF_NO_SELFTEST") and factsrun.REPO == "/repo":
+            # checker self-validation (non-fatal, reported): this property's mutants on scratch copies
+            import selftest
+            st = selftest.run_for_property(prop)
+            rep.selftest = st
+            rep.note("selftest: %d breaking mutants caught, %d missed %s, %d benign silent, %d false alarms %s, %d skipped" % (
+                len(st["caught"]), len(st["missed"]), st["missed"], len(st["silent"]), len(st["false_alarm"]), st["false_alarm"], len(st["skipped"])))
     except Exception as e:  # build failure, internal error: fail closed
         import traceback
         fatal = "%s: %s" % (type(e).__name__, e)
@@ -239,6 +248,7 @@ def run_property(prop, tier, rule_fn, floor, meta):
             "samples": samples,
             "known_findings_matched": [i.key() for i, _ in known_hit],
             "notes": rep.notes,
+            "selftest": getattr(rep, "selftest", None),
             "tree_hash": factsrun.tree_hash(),
         },
         "assumptions": meta.get("assumptions", []),
